@@ -42,7 +42,13 @@
       * the packet's name against the names in the tables (relation_family): Nack / Data / Interest named N (depth 0 = the empty
         name .. 3) against every subset of {parent, N, N+1, N+2, sibling, elsewhere} pending and of {root, parent, N, N+1,
         sibling, elsewhere} attached -- in particular tables where N is only an inner node (entries strictly below, nothing at
-        it): exactly the entries the packet addresses by name are completed / invoked, reception returns normally.
+        it): exactly the entries the packet addresses by name are completed / invoked, reception returns normally;
+      * pending Interests that END IN AN IMPLICIT DIGEST at every relation to the packet's name (digest_family): the digest is the
+        arriving Data's own, that of the Data the Interest is completed with afterwards, the arriving Data's with one bit changed,
+        an unrelated one; the node the Interest waits at is the root, the parent of the packet's name, the name, one / two
+        components below, a sibling, elsewhere; CanBePrefix and MustBeFresh set / unset; the Data carries FreshnessPeriod absent /
+        0 / 1000 / no MetaInfo; also Nacks for the name with and without that digest: after EVERY delivery (the packet, then one
+        completing Data / Nack per Interest still pending) exactly the Interests addressed by name AND digest have ended.
 """
 import asyncio
 import copy
@@ -144,6 +150,27 @@ RULE = ('(A) packet lists (types/lengths over all four var-number forms incl. no
         'Interest invokes exactly the longest attached prefix of N once; everything below, beside and elsewhere is untouched, nothing '
         'is transmitted; afterwards every Interest still pending completes with its own Data and every handler serves an Interest '
         'under its prefix.  '
+        'Pending Interests that end in an implicit digest (everything by construction, harness\'s own encoder and SHA-256): an Interest '
+        'B/<ImplicitSha256Digest=X> waits at table node B; a Data addresses it iff (the Data is named B, or B is a proper prefix of its '
+        'name and the Interest has CanBePrefix) AND the SHA-256 of the Data packet is X; a Nack addresses it iff it returns B/<X>.  The '
+        'packet is a Data named N of depth 1-3 (FreshnessPeriod absent / 0 / 1000 ms / no MetaInfo element; DigestSha256-signed / '
+        'unsigned; bare / LpPacket with PIT token; awaited / as a task), a Nack for N/<digest of that Data> or a Nack for N (reason 150 / '
+        'absent / 0 / 50).  B is at each relation to N: the root (the Interest is named by the digest alone), the parent, N itself, N + 1 '
+        'component, N + 2 components, a sibling, elsewhere.  X is `own` (the digest of the arriving Data), `its` (the digest of the Data '
+        'delivered for this Interest afterwards), `flip` (own with one bit changed, position rotating), `rand` (unrelated); `none` = a '
+        'plain Interest.  (1) one digest Interest: front-end x depth x relation x {own, its, flip, rand} x CanBePrefix x MustBeFresh, with '
+        'every FreshnessPeriod form where the name condition can hold (root / parent / N, own / flip; rotating elsewhere), alone or beside a '
+        'plain Interest at the same node / at N / CanBePrefix parent / below; (2) tables: EVERY subset of the seven relations, kinds, '
+        'CanBePrefix, MustBeFresh rotating, Data and both Nack forms; (3) two Interests at ONE node: every ordered pair of the five '
+        'kinds at every relation (thorough: full product of (1) with signature x envelope x hand-over, sampled rotations of (2), all '
+        'depths of (3)).  Demanded after the packet AND after each packet of the aftermath (every Interest still pending gets, shorter '
+        'names first, a packet of its own: plain -> its Data; its -> exactly the Data with that digest; own where that Data addresses it '
+        '-> that Data; otherwise the Nack returning the very wire the application sent, reason 150 / absent / 50): reception returns '
+        'normally, no task ends with an unhandled error, nothing is transmitted; EXACTLY the Interests the packet addresses have ended, '
+        'with that packet (pending-interest-not-completed; in the aftermath pending-interest-lost), every other one is still pending '
+        '(pending-interest-disturbed) -- in particular `digest right, name condition wrong` (own below / beside / above without '
+        'CanBePrefix), `name right, digest wrong`, MustBeFresh against FreshnessPeriod 0 / absent (the receive path of an application '
+        'does not judge freshness), and a Nack for N against N/<X> and vice versa.  '
         'non-trivial = stream/packet of >= 4 bytes; distinct by (part, input) hash')
 ASSUMPTIONS = [
     'asyncio.StreamReader.readexactly consumes nothing until n bytes are buffered; tasks start in creation order '
@@ -2906,6 +2933,314 @@ def relation_family(ctx, fronts, loop, M):
                         gc.freeze()
 
 
+# ---- pending Interests that END IN AN IMPLICIT DIGEST, at every relation to the packet's name -----------------------------------
+# An Interest `B/<ImplicitSha256Digest=X>` waits at the table node B (the digest is not part of the key) and is addressed by a Data
+# only if the NAME condition holds (the Data is named B; or B is a proper prefix of its name and the Interest has CanBePrefix) AND
+# the Data's own SHA-256 is X; by a Nack only if the nacked name is B/<X> itself.  The relation family above never put such an
+# Interest into the table, and the only digests the other families ever stored were ones no packet has (state kind `H`, the odd
+# components): the combination "digest RIGHT, name condition WRONG" -- and its mirror images -- did not exist.  Here the digest is
+# that of the arriving Data (`own`), that of the Data the entry is completed with afterwards (`its`), the arriving Data's with one
+# bit changed (`flip`) or an unrelated one (`rand`), and B lies at every relation to the packet's name N.
+DG_RELS = ('root', 'parent', 'at', 'below1', 'below2', 'sibling', 'other')
+DG_KINDS = ('none', 'own', 'its', 'flip', 'rand')
+DG_PACKETS = ('data', 'nack-digest', 'nack-plain')
+DG_FRESH = (None, 0, 1000, 'nometa')        # FreshnessPeriod absent (empty MetaInfo) / 0 / 1000 ms / no MetaInfo element at all
+
+
+def dg_build_data(comps, content, fresh=None, signed=False):
+    """the harness's own encoder: Data{Name, [MetaInfo{[FreshnessPeriod]}], Content, [DigestSha256 SignatureInfo, SignatureValue]}"""
+    import hashlib
+    meta = b'' if fresh == 'nometa' else G.tlv(0x14, b'' if fresh is None else G.tlv(0x19, b'\x00' if fresh == 0 else struct.pack('>H', fresh)))
+    body = G.tlv(7, b''.join(comps)) + meta + G.tlv(0x15, content)
+    if signed:
+        body += G.tlv(0x16, G.tlv(0x1b, b'\x00'))
+        body += G.tlv(0x17, hashlib.sha256(body).digest())
+    return G.tlv(6, body)
+
+
+def dg_addresses(e, kind, pname, pdigest):
+    """the reference: does the packet (a Data named pname whose SHA-256 is pdigest / a Nack returning the Interest pname[/<pdigest>])
+    legitimately address the pending Interest e = {'base', 'digest' (None = carries none), 'cbp'}"""
+    if kind == 'data':
+        by_name = e['base'] == pname or (e['cbp'] and len(e['base']) < len(pname) and pname[:len(e['base'])] == e['base'])
+        return by_name and (e['digest'] is None or e['digest'] == pdigest)
+    return e['base'] == pname and e['digest'] == pdigest
+
+
+def digest_relation_scenario(ctx, front, loop, M, sp):
+    """sp: {'depth', 'packet', 'pending': [[relation, digest kind, CanBePrefix, MustBeFresh]...], 'fresh', 'signed', 'reason', 'lp',
+    'mode'}.  The table is built by `express`; the packet (by the harness's own encoder) is delivered; then every Interest still
+    pending is completed in turn by a packet of its own -- the Data named by it (plain / `its` / `own` where that Data addresses it)
+    or the Nack returning the very wire the application sent -- and after EVERY delivery exactly the Interests the reference says
+    are addressed have ended, with that packet."""
+    import hashlib
+    from ndn.types import InterestNack
+    ver = front.ver
+    site = f'appv{ver}._receive'
+    VR = getattr(front.mod, 'ValidResult', None)
+    nN, names = rel_names(sp['depth'])
+    app = front.new_app()
+    case = {'front': ver, 'digestrel': dict(sp), 'name': b''.join(nN)}
+    loop.errors.clear()
+    own_wire = dg_build_data(nN, b'rel', sp['fresh'], sp['signed'])
+    own = hashlib.sha256(own_wire).digest()
+
+    async def ok2(name, sig, context):
+        return VR.PASS
+
+    async def ok1(name, sig):
+        return True
+    entries = []
+
+    def finish():
+        for e in entries:
+            if not e['task'].done():
+                e['task'].cancel()
+        loop.settle()
+        retrieve([e['task'] for e in entries])
+        loop.collect_errors()
+        loop.errors.clear()
+
+    def label(e):
+        return f'{e["rel"]}{"*" if e["cbp"] else ""}{"!" if e["mbf"] else ""}{"" if e["kind"] == "none" else "+" + e["kind"]}'
+    try:
+        for i, (rel, kind, cbp, mbf) in enumerate(sp['pending']):
+            base = names.get(rel)
+            if base is None or (kind == 'none' and not base):
+                continue            # (no such name at this depth; a plain Interest for the empty name is not expressed)
+            its_wire = None
+            if kind == 'own':
+                dg = own
+            elif kind == 'its':
+                its_wire = dg_build_data(base, b'its:%d' % i, DG_FRESH[i % 3], signed=i % 2 == 0)
+                dg = hashlib.sha256(its_wire).digest()
+            elif kind == 'flip':
+                k = (5 * i + sp['depth']) % 32
+                dg = own[:k] + bytes([own[k] ^ (1 << (i % 8))]) + own[k + 1:]
+            elif kind == 'rand':
+                dg = hashlib.sha256(b'unrelated' + bytes([i])).digest()
+            else:
+                dg = None
+            nm = list(base) + ([G.tlv(1, dg)] if dg is not None else [])
+
+            async def go(nm=nm, cbp=cbp, mbf=mbf):
+                kw = {'lifetime': 60000, 'can_be_prefix': bool(cbp), 'must_be_fresh': bool(mbf), 'nonce': len(entries) + 1}
+                co = app.express(list(nm), ok2, **kw) if ver == 2 else app.express_interest(list(nm), validator=ok1, **kw)
+                return loop.create_task(co)
+            n0 = len(app.face.sent)
+            t = loop.run_until_complete(go())
+            loop.settle()
+            entries.append({'i': i, 'rel': rel, 'kind': kind, 'base': list(base), 'digest': dg, 'cbp': bool(cbp), 'mbf': bool(mbf),
+                            'task': t, 'its': its_wire, 'wire': app.face.sent[n0] if len(app.face.sent) > n0 else None})
+    except Exception as e:   # noqa
+        ctx.violation(site, f'history-raises:{exc_class(e)}', f'building the table raised {e!r}', case)
+        finish()
+        return
+    for e in entries:
+        if e['task'].done() or e['wire'] is None:
+            ctx.violation(site, 'history-outcome', f'the Interest {label(e)} ended while it was being expressed / was not sent', case)
+            finish()
+            return
+    table = ','.join(label(e) for e in entries) or 'empty'
+
+    def plain_interest(nm):
+        return G.tlv(5, G.tlv(7, b''.join(nm)) + G.tlv(0x0a, b'\x01\x02\x03\x04') + G.tlv(0x0c, b'\x0f\xa0'))
+
+    def nack_of(inter, reason, lp=False):
+        return 0x64, G.tlv(0x64, (G.tlv(0x62, b'\x0a\x0b') if lp else b'')
+                           + G.tlv(0x0320, b'' if reason is None else G.tlv(0x0321, bytes([reason]))) + G.tlv(0x50, inter))
+    # -- the packet
+    pk = sp['packet']
+    reason = sp['reason']
+    if pk == 'data':
+        typ, w = on_envelope('lp-token' if sp['lp'] else 'bare', own_wire)
+        ref = ('data', nN, own)
+        want = ('data', nN, b'rel')
+        kind_no, built_name = 4, nN
+    else:
+        pdg = own if pk == 'nack-digest' else None
+        mine = [e for e in entries if e['base'] == nN and e['digest'] == pdg]
+        built_name = nN + ([G.tlv(1, pdg)] if pdg is not None else [])
+        typ, w = nack_of(bytes(mine[0]['wire']) if mine else plain_interest(built_name), reason, sp['lp'])
+        ref = ('nack', nN, pdg)
+        want = ('nack', (0 if front.nd is None else front.nd) if reason is None else reason)
+        kind_no = 2
+    case['typ'], case['wire'] = typ, w
+    action = classify_action(M, front, loop, typ, w, 'digestrel')
+    if action[0] != kind_no or [bytes(c) for c in action[1]] != built_name:
+        ctx.disagree(site, f'a well-formed {pk} the harness built is not classified as one / not with the name it was built with',
+                     case, action, [kind_no, built_name])
+        finish()
+        return
+    fp = {None: 'FreshnessPeriod absent', 0: 'FreshnessPeriod 0', 1000: 'FreshnessPeriod 1000', 'nometa': 'no MetaInfo'}[sp['fresh']]
+    what = f'{pk} named /{b"/".join(c[2:] for c in nN).decode()}' + \
+           (f' ({fp}, {"signed" if sp["signed"] else "unsigned"}; `own` = its SHA-256)' if pk == 'data' else
+            (' + <the `own` digest>' if pk == 'nack-digest' else '')) + f' (pending: {table})'
+
+    def outcome(t):
+        if not t.done():
+            return ('pending',)
+        if t.cancelled():
+            return ('CancelledError',)
+        e = t.exception()
+        if e is None:
+            r = t.result()
+            content = r[1] if ver == 2 else r[2]
+            return ('data', [bytes(c) for c in r[0]], None if content is None else bytes(content))
+        if isinstance(e, InterestNack):
+            return ('nack', e.reason)
+        return (exc_class(e),)
+
+    def same(o, want):
+        return o == want or (want[0] == 'nack' and o[0] == 'nack' and want[1] in (None, 0) and o[1] in (None, 0))
+
+    def deliver(typ, w, mode):
+        if mode == 'await':
+            async def go_await():
+                try:
+                    await app._receive(typ, w)
+                    return None
+                except Exception as e:   # noqa
+                    return e
+            exc = loop.run_until_complete(go_await())
+            loop.settle()
+            return exc
+        async def go_task():
+            return loop.create_task(app._receive(typ, w))
+        rx = loop.run_until_complete(go_task())
+        loop.settle()
+        if not rx.done():
+            ctx.violation(site, 'reception-does-not-return', 'the reception task is still running at quiescence', case)
+            rx.cancel()
+            loop.settle()
+            return None
+        return None if rx.cancelled() else rx.exception()
+
+    def judge(ref, want, text, target=None):
+        """after a delivery: exactly the still-pending Interests the reference says are addressed have ended, with `want`"""
+        for e in entries:
+            if e['ended']:
+                continue
+            o = outcome(e['task'])
+            if dg_addresses(e, *ref):
+                if not same(o, want):
+                    ctx.violation(site, 'pending-interest-lost' if target is not None else 'pending-interest-not-completed',
+                                  f'the Interest {label(e)} is addressed by the {text}; expected {want!r:.60}, it is {o!r:.60}', case)
+            elif o != ('pending',):
+                ctx.violation(site, 'pending-interest-disturbed',
+                              f'the Interest {label(e)} is not addressed by the {text} and ended with {o!r:.60}', case)
+            e['ended'] = o != ('pending',)
+    for e in entries:
+        e['ended'] = False
+    sent0 = len(app.face.sent)
+    hit = any(dg_addresses(e, *ref) for e in entries if e['digest'] is not None)
+    near = any(e['digest'] == own and not dg_addresses(e, *ref) for e in entries)
+    exc = deliver(typ, w, sp['mode'])
+    if exc is not None:
+        ctx.violation(site, f'raises:{exc_class(exc)}:{"_on_data" if pk == "data" else "_on_nack"}',
+                      f'_receive raised {type(exc).__name__} ({str(exc)[:80]}) on a {what}', case)
+    judge(ref, want, what)
+    if len(app.face.sent) != sent0:
+        ctx.violation(site, 'packet-caused-transmission', f'something was transmitted in response to the {what}', case)
+    # -- aftermath: every Interest still pending is completed by a packet of its own, shorter names first
+    for e in sorted(entries, key=lambda e: (len(e['base']), e['i'])):
+        if e['ended']:
+            continue
+        if e['digest'] is None:
+            c = b'after:%d' % e['i']
+            aw = dg_build_data(e['base'], c, DG_FRESH[e['i'] % 4], signed=e['i'] % 2 == 1)
+            atyp, aref, awant = 6, ('data', e['base'], hashlib.sha256(aw).digest()), ('data', e['base'], c)
+        elif e['its'] is not None:
+            atyp, aw, aref, awant = 6, e['its'], ('data', e['base'], e['digest']), ('data', e['base'], b'its:%d' % e['i'])
+        elif e['digest'] == own and dg_addresses(e, 'data', nN, own):
+            atyp, aw, aref, awant = 6, own_wire, ('data', nN, own), ('data', nN, b'rel')     # (the packet was a Nack)
+        else:
+            r = (150, None, 50)[e['i'] % 3]
+            atyp, aw = nack_of(bytes(e['wire']), r)
+            aref, awant = ('nack', e['base'], e['digest']), ('nack', (0 if front.nd is None else front.nd) if r is None else r)
+        text = f'{"Data" if atyp == 6 else "Nack"} meant for the Interest {label(e)} after the {what}'
+        exc = deliver(atyp, aw, 'await')
+        if exc is not None:
+            ctx.violation(site, f'aftermath-error:{exc_class(exc)}', f'_receive raised {exc!r:.80} on the {text}', case)
+        judge(aref, awant, text, target=e)
+    errs = loop.collect_errors()
+    loop.errors.clear()
+    if errs:
+        e = errs[0].get('exception')
+        ctx.violation(site, f'loop-error:{exc_class(e) if e is not None else "none"}',
+                      f'a background task ended with an unhandled error ({what}): {errs[0].get("message")} {e!r}', case)
+    finish()
+    shape = 'digest-and-name-right' if hit else ('digest-right-name-wrong' if near else
+                                                  ('digests-wrong' if any(e['digest'] is not None for e in entries) else 'no-digest'))
+    ctx.case(('dgrel', ver, repr(sorted(case['digestrel'].items()))), True, case,
+             f'recv.v{ver}.digestrel.{pk}.depth{sp["depth"]}.{shape}')
+
+
+def digest_family(ctx, fronts, loop, M):
+    """(1) ONE digest-carrying Interest: front-end x depth x relation x digest kind x CanBePrefix x MustBeFresh, the Data with every
+    FreshnessPeriod form where the name condition can hold (rotating elsewhere), a plain companion rotating; (2) tables: EVERY subset
+    of the relations, digest kinds rotating, Data and both Nack forms; (3) TWO Interests at one node: every pair of kinds at every
+    relation.  Signature, envelope, hand-over, reason rotate (thorough: the full product of (1), sampled rotations of (2), (3))."""
+    import itertools
+    rng = ctx.rng
+    n = [0]
+
+    def go(f, sp):
+        n[0] += 1
+        i = n[0]
+        sp.setdefault('fresh', DG_FRESH[i % 4])
+        sp.setdefault('signed', (i // 2) % 2 == 0)
+        sp.setdefault('lp', (i // 3) % 2 == 1)
+        sp.setdefault('mode', ('task', 'await')[(i // 5) % 2])
+        sp.setdefault('reason', REL_REASONS[i % 4])
+        digest_relation_scenario(ctx, f, loop, M, sp)
+        if i % 400 == 1:
+            gc.collect()
+            gc.freeze()
+    companions = ([], [['at', 'none', 0, 0]], [['parent', 'none', 1, 0]], None, [['below1', 'none', 0, 1]], [['at', 'none', 1, 1], ['other', 'none', 0, 0]])
+    subsets = [list(c) for k in range(len(DG_RELS) + 1) for c in itertools.combinations(DG_RELS, k)]
+    for f in fronts:
+        j = 0
+        # (1)
+        for depth in (1, 2, 3):
+            for rel in DG_RELS:
+                for kind in DG_KINDS[1:]:
+                    for cbp in (0, 1):
+                        for mbf in (0, 1):
+                            fresh = DG_FRESH if (ctx.thorough or (rel in ('root', 'parent', 'at') and kind in ('own', 'flip'))) else (DG_FRESH[j % 4],)
+                            for fr in fresh:
+                                j += 1
+                                comp = companions[j % len(companions)]
+                                comp = [[rel, 'none', 1 - cbp, 0]] if comp is None else comp       # (a plain Interest at the same node)
+                                first = j % 2 == 0
+                                entry = [[rel, kind, cbp, mbf]]
+                                sp = {'depth': depth, 'packet': 'data' if j % 7 else ('nack-digest', 'nack-plain')[(j // 7) % 2],
+                                      'pending': entry + comp if first else comp + entry, 'fresh': fr}
+                                go(f, sp)
+                                if ctx.thorough:
+                                    for sg, lp, md in itertools.product((False, True), (False, True), ('task', 'await')):
+                                        go(f, dict(sp, signed=sg, lp=lp, mode=md, packet='data'))
+        # (2)
+        for rot in range(4 if ctx.thorough else 1):
+            for depth in (1, 2, 3):
+                for si, ss in enumerate(subsets):
+                    j += 1
+                    pend = []
+                    for q, rel in enumerate(ss):
+                        kind = DG_KINDS[(si + 2 * q + rot) % 5] if rot == 0 else rng.choice(DG_KINDS)
+                        pend.append([rel, kind, (j + q) % 2, (j // 2 + q) % 2])
+                    go(f, {'depth': depth, 'packet': DG_PACKETS[0 if j % 3 else (j // 3) % 3], 'pending': pend})
+        # (3)
+        for rel in DG_RELS:
+            for k1, k2 in itertools.product(DG_KINDS, DG_KINDS):
+                for depth in ((1, 2, 3) if ctx.thorough else ((j % 2) + 2,)):
+                    j += 1
+                    pend = [[rel, k1, j % 2, (j // 3) % 2], [rel, k2, (j // 2) % 2, (j // 5) % 2]]
+                    if j % 4 == 0:
+                        pend.append(['at', ('none', 'own')[(j // 4) % 2], 0, 0])
+                    go(f, {'depth': depth, 'packet': DG_PACKETS[0 if j % 4 else (j // 4) % 3], 'pending': pend})
+
+
 def retrieve(tasks):
     """the harness is done with these tasks: an outcome nobody looked at (InterestCanceled of an Interest the harness
     itself cancelled ...) must not show up as "Task exception was never retrieved" in a LATER scenario on this loop"""
@@ -3013,6 +3348,10 @@ def part_receive(ctx, only=None):
                     for f in fronts:
                         relation_scenario(ctx, f, loop, M, w)
                     continue
+                if typ == 'digestrel':
+                    for f in fronts:
+                        digest_relation_scenario(ctx, f, loop, M, w)
+                    continue
                 origin = tbl[2] if len(tbl) > 2 and tbl[2] in BUILT_NACKS else 'replay'
                 if tbl and tbl[0]:
                     # a stored table scenario: the same state word and hand-over mode, both front-ends
@@ -3032,6 +3371,8 @@ def part_receive(ctx, only=None):
         oddname_family(ctx, fronts, loop, M)
         # the packet's name above / at / below / beside the names in both tables; the empty name
         relation_family(ctx, fronts, loop, M)
+        # pending Interests ending in an implicit digest (the packet's, another Data's, a wrong one) at every relation to its name
+        digest_family(ctx, fronts, loop, M)
         # ordinary packets against every small state of the pending-Interest table (and sampled larger ones)
         for wi, word in enumerate(state_words(ctx)):
             pk = table_packets(ctx, wi)
@@ -3110,6 +3451,8 @@ def replay(ctx, data):
         part_receive(ctx, only=[('oddpend', case['oddpend'])])
     elif 'relation' in case:
         part_receive(ctx, only=[('relation', case['relation'])])
+    elif 'digestrel' in case:
+        part_receive(ctx, only=[('digestrel', case['digestrel'])])
     elif 'wire' in case:
         part_receive(ctx, only=[(case['typ'], case['wire'], case.get('table'), case.get('mode', 'task'), case.get('origin'))])
     else:
